@@ -9,7 +9,7 @@ from . import c01
 ID = 'C16'
 
 ARGCLASSES = ['ok', 'ok', 'ok', 'missing', 'dot', 'badutf8', 'untrashable',
-              'duplicate', 'ok-link', 'ok-tree']
+              'duplicate', 'ok-link', 'ok-tree', 'ro-parent']
 
 
 def config(tier):
@@ -53,6 +53,7 @@ def gen_case(rng, index, tier):
     args = []
     used = set()
     firsts = []
+    hostile = False
     for a in range(n):
         cls = rng.choice(ARGCLASSES)
         tag = 'c%da%d' % (index, a)
@@ -69,6 +70,21 @@ def gen_case(rng, index, tier):
             arg = c01.add_entry(L, rng, workdirs, a, tag, used,
                                 kinds=['file', 'tree'], spellings=['rel', 'abs'],
                                 vol='v2', name_kw={'allow_bad_utf8': False})
+        elif cls == 'ro-parent':
+            # in a directory the user may not write to: the rename out of it
+            # is refused by the kernel (the case runs without CAP_DAC_OVERRIDE)
+            v = rng.choice(['', 'v1'])
+            rod = workdirs[v] + '/readonly%d' % a
+            L.add({'p': rod, 't': 'd', 'm': 0o555})
+            arg = c01.add_entry(L, rng, dict(workdirs, **{v: rod}), a, tag, used,
+                                kinds=['file', 'tree', 'link_dangling'],
+                                spellings=['rel', 'abs'], vol=v, deep=False,
+                                name_kw={'allow_bad_utf8': False})
+            for nd in L.nodes:
+                if nd['p'].startswith(rod + '/sub') and nd.get('t') == 'd' and \
+                        nd['p'].count('/') == rod.count('/') + 1:
+                    nd['m'] = 0o555
+            hostile = True
         elif cls == 'badutf8':
             arg = c01.add_entry(L, rng, workdirs, a, tag, used,
                                 kinds=['file'], spellings=['rel', 'abs'],
@@ -115,6 +131,8 @@ def gen_case(rng, index, tier):
                for _ in args]
     c01.add_stale(L, rng, [a for a in args if 'rel' in a], index, p=0.25)
     case = L.desc()
+    if hostile:
+        case['drop_caps'] = True
     case['args'] = args
     case['opts'] = opts
     case['optclass'] = opt
